@@ -70,7 +70,9 @@ SCALES = {"component": ("c", ComponentLevelMethod), "equipment": ("g", Equipment
           "site": ("s", SiteLevelMethod)}
 QE_FILE = "qe.csv"
 QE_COLUMNS = {"err_a": [-125, -100, -75, 0, 25, 150], "err_b": [0], "err_c": [-50, 50, 100]}
+QE_COLUMNS_OFFGRID = {"err_d": [-100.0000001, -99.9, -33.333, 12.34, 0.1, 61.8]}   # unsnapped pass only
 RATES = [0.125, 0.25, 0.375, 0.5, 1.0, 1.5, 2.0, 4.0, 8.0]
+OFFGRID_RATES = [0.1, 0.2, 0.3, 0.7, 1.0 / 3.0, 2.2, 0.05, 0.001, 5.5, 1.1]
 SIM_START = date(2022, 1, 1)
 
 
@@ -153,11 +155,13 @@ def build_world(rng) -> World:
     try:
         files, in_dir, _ = W.materialize(cfg, root)
         with open(os.path.join(in_dir, QE_FILE), "w") as fh:
-            cols = sorted(QE_COLUMNS)
-            n = max(len(QE_COLUMNS[c]) for c in cols)
+            allc = dict(QE_COLUMNS)
+            allc.update(QE_COLUMNS_OFFGRID)
+            cols = sorted(allc)
+            n = max(len(allc[c]) for c in cols)
             fh.write(",".join(cols) + "\n")
             for i in range(n):
-                fh.write(",".join(str(QE_COLUMNS[c][i]) if i < len(QE_COLUMNS[c]) else "" for c in cols) + "\n")
+                fh.write(",".join(repr(allc[c][i]) if i < len(allc[c]) else "" for c in cols) + "\n")
         import contextlib
         import io
 
@@ -269,8 +273,9 @@ class Scene:
 class Recorder:
     """observation-only wrappers; `with Recorder(scene) as rec:` around one survey"""
 
-    def __init__(self, scene: Scene):
+    def __init__(self, scene: Scene, snap: bool = True):
         self.scene = scene
+        self.snap = snap          # False: the draws of normal/uniform are only recorded, not altered
         self.binomial = []        # (p, result)
         self.spatial = {}         # model id -> (outcome, drew_roll)
         self.temporal = {}        # model id -> outcome
@@ -361,7 +366,9 @@ class Recorder:
         for fn in ("normal", "uniform"):
             def mk2(orig):
                 def draw(*a, **k):
-                    v = rec._snap(orig(*a, **k))
+                    v = orig(*a, **k)
+                    if rec.snap:
+                        v = rec._snap(v)
                     rec._shift = v
                     return v
                 return draw
@@ -461,8 +468,10 @@ class SurveyResult:
     pass
 
 
-def run_survey(scene: Scene, mm, code, si, day, rng):
-    """runs the real survey; returns (model request line, implementation reply line, facts for the oracle)"""
+def run_survey(scene: Scene, mm, code, si, day, rng, model=True):
+    """runs the real survey; returns (model request line, implementation reply line, facts for the oracle).
+    model=False (unsnapped / off-grid pass): nothing is altered or snapped, no protocol lines are built,
+    only the facts for the oracle are returned"""
     world = scene.world
     site = scene.sites[si]
     name = mm._name
@@ -478,11 +487,19 @@ def run_survey(scene: Scene, mm, code, si, day, rng):
     cur = SIM_START + timedelta(days=day)
     report = SiteSurveyReport(site_id=site.get_id())
     crew = CrewDailyReport(crew_id=1, day_time_remaining=480)
-    with Recorder(scene) as rec:
+    with Recorder(scene, snap=model) as rec:
         mm.survey_site(crew=crew, survey_report=report, site_to_survey=site, weather=None, curr_date=cur)
     if not report.survey_complete:
         raise InfraError("adapter: survey did not complete")
     mdl = mm._sensor._mdl
+    if not model:
+        res = SurveyResult()
+        res.name, res.code, res.si, res.day, res.mdl = name, code, si, day, mdl
+        res.report, res.rec, res.before, res.state_before = report, rec, before, state_before
+        res.key, res.layout = key, scene.layout(si)
+        res.tested = [u for u in rec.units if u["rate"] is not None]
+        res.cov_after = {n: scene.em_obj[n]._tech_spat_covs.get(key) for (n, _) in before}
+        return None, None, res
     # ---- model request -------------------------------------------------------------------
     layout = scene.layout(si)
     n_units = {"c": sum(len(cs) for _, cs in layout), "g": len(layout), "s": 1}[code]
